@@ -62,6 +62,9 @@ func (vc *VC) instr(ins ssa.Instruction) {
 		if vc.e.cs.NonNilField[vc.nonNilKeyField(x.X.Type(), x.Field)] && canBeNil(x.Type()) {
 			vc.gfact(Not(vc.isNil(vc.val[x], x.Type())))
 		}
+		if vc.e.cs.FoldedField[vc.nonNilKeyField(x.X.Type(), x.Field)] {
+			vc.gfact(sx("folded", vc.val[x]))
+		}
 	case *ssa.IndexAddr:
 		vc.indexAddr(x)
 	case *ssa.Index:
@@ -300,7 +303,8 @@ func (vc *VC) fieldAddr(x *ssa.FieldAddr) {
 		return
 	}
 	n, s, _ := vc.e.fieldArr(st, x.Field)
-	vc.lv[x] = &LV{arr: n, sort: s, idx: []Term{b}, typ: ft, nnKey: vc.nonNilKeyField(st, x.Field)}
+	_, isLocal := x.X.(*ssa.Alloc)
+	vc.lv[x] = &LV{arr: n, sort: s, idx: []Term{b}, typ: ft, nnKey: vc.nonNilKeyField(st, x.Field), fresh: isLocal}
 	if !vc.addrOnly[x] {
 		// the address escapes as a value: give it a symbolic pointer
 		fa := sym("faddr:" + n)
@@ -319,7 +323,7 @@ func (vc *VC) indexAddr(x *ssa.IndexAddr) {
 		s := vc.v(x.X)
 		vc.check("bounds", x.Pos(), "", And(Ge(i, "0"), Lt(i, sx("s_len", s))), sp)
 		n, srt := vc.e.elemArr(u.Elem())
-		vc.lv[x] = &LV{arr: n, sort: srt, idx: []Term{sx("s_arr", s), Add(sx("s_off", s), i)}, typ: u.Elem(), nnKey: vc.e.typeName(x.X.Type())}
+		vc.lv[x] = &LV{arr: n, sort: srt, idx: []Term{sx("s_arr", s), Add(sx("s_off", s), i)}, typ: u.Elem(), nnKey: vc.e.typeName(x.X.Type()), elemOf: vc.fromField[x.X]}
 	case *types.Pointer:
 		at := u.Elem().Underlying().(*types.Array)
 		p := vc.v(x.X)
@@ -338,7 +342,8 @@ func (vc *VC) indexAddr(x *ssa.IndexAddr) {
 }
 
 func (vc *VC) nonNilLoadFact(l *LV, v Term) {
-	if l.nnKey == "" {
+	// invariants are not assumed for objects allocated in this function (they may not be initialised yet)
+	if l.nnKey == "" || l.fresh {
 		return
 	}
 	if vc.e.cs.NonNilField[l.nnKey] || vc.e.cs.NonNilElem[l.nnKey] {
@@ -355,6 +360,9 @@ func (vc *VC) unop(x *ssa.UnOp) {
 			vc.gfact(vc.typeFacts(vc.val[x], x.Type()))
 			vc.nonNilLoadFact(l, vc.val[x])
 			vc.loadFacts(x, l)
+			if l.nnKey != "" && !l.fresh && len(l.idx) == 1 {
+				vc.fromField[x] = l.nnKey
+			}
 			return
 		}
 		if g, ok := x.X.(*ssa.Global); ok {
@@ -395,8 +403,20 @@ func (vc *VC) unop(x *ssa.UnOp) {
 	}
 }
 
-// loadFacts: library type invariants assumed for loaded pointers
+// loadFacts: string qualifier disciplines assumed at loads
 func (vc *VC) loadFacts(x ssa.Value, l *LV) {
+	if l.fresh {
+		return
+	}
+	if l.elemOf != "" && vc.e.cs.FoldedElems[l.elemOf] {
+		vc.gfact(sx("folded", vc.val[x]))
+	}
+	if l.nnKey != "" && vc.e.cs.FoldedField[l.nnKey] {
+		vc.gfact(sx("folded", vc.val[x]))
+	}
+	if l.nnKey != "" && vc.e.cs.NlfreeField[l.nnKey] {
+		vc.gfact(sx("nlfree", vc.val[x]))
+	}
 }
 
 func (vc *VC) store(x *ssa.Store) {
@@ -429,7 +449,28 @@ func (vc *VC) store(x *ssa.Store) {
 	}
 }
 
-func (vc *VC) disciplineStore(x *ssa.Store, l *LV, v Term) {}
+func (vc *VC) disciplineStore(x *ssa.Store, l *LV, v Term) {
+	if l.nnKey != "" && vc.e.cs.FoldedElems[l.nnKey] {
+		if st, ok := l.typ.Underlying().(*types.Slice); ok {
+			en, es := vc.e.elemArr(st.Elem())
+			E := vc.arrCur(en, es)
+			q := fmt.Sprintf("(forall ((j Int)) (=> (and (<= 0 j) (< j (s_len %s))) (folded (select (select %s (s_arr %s)) (+ (s_off %s) j)))))", v, E, v, v)
+			if ob := vc.check("folded-elems", x.Pos(), l.nnKey+" = "+vc.exprText(x.Pos()), q, []string{"C08"}); ob != nil {
+				ob.Detail = l.nnKey
+			}
+		}
+	}
+	if l.nnKey != "" && vc.e.cs.FoldedField[l.nnKey] {
+		if ob := vc.check("folded-store", x.Pos(), l.nnKey+" = "+vc.exprText(x.Pos()), sx("folded", v), []string{"C08"}); ob != nil {
+			ob.Detail = l.nnKey
+		}
+	}
+	if l.nnKey != "" && vc.e.cs.NlfreeField[l.nnKey] {
+		if ob := vc.check("nlfree-store", x.Pos(), l.nnKey+" = "+vc.exprText(x.Pos()), sx("nlfree", v), []string{"C16"}); ob != nil {
+			ob.Detail = l.nnKey
+		}
+	}
+}
 
 func (vc *VC) binop(x *ssa.BinOp) {
 	a, b := vc.v(x.X), vc.v(x.Y)
@@ -443,7 +484,7 @@ func (vc *VC) binop(x *ssa.BinOp) {
 	case token.ADD:
 		switch xs {
 		case SStr:
-			t := sx("concat", a, b)
+			t := sx("sconcat", a, b)
 			vc.setVal(x, t)
 			vc.gfact(Eq(sx("slen", vc.val[x]), Add(sx("slen", a), sx("slen", b))))
 			vc.gfact(Eq(sx("nlfree", vc.val[x]), And(sx("nlfree", a), sx("nlfree", b))))
@@ -727,6 +768,11 @@ func (vc *VC) lookup(x *ssa.Lookup) {
 	switch u := x.X.Type().Underlying().(type) {
 	case *types.Map:
 		m, k := vc.v(x.X), vc.v(x.Index)
+		if tn := vc.e.typeName(x.X.Type()); vc.e.cs.FoldedKeys[tn] {
+			if ob := vc.check("folded-key", x.Pos(), "", sx("folded", k), []string{"C08"}); ob != nil {
+				ob.Detail = tn
+			}
+		}
 		d, v, ds, vs := vc.e.mapArrs(u)
 		in := Sel(Sel(vc.arrCur(d, ds), m), k)
 		val := Sel(Sel(vc.arrCur(v, vs), m), k)
@@ -784,7 +830,14 @@ func (vc *VC) mapUpdate(x *ssa.MapUpdate) {
 	vc.setArr(vn, vs, Sto(va, m, Sto(Sel(va, m), k, v)))
 }
 
-func (vc *VC) disciplineMapUpdate(x *ssa.MapUpdate, m, k, v Term) {}
+func (vc *VC) disciplineMapUpdate(x *ssa.MapUpdate, m, k, v Term) {
+	tn := vc.e.typeName(x.Map.Type())
+	if vc.e.cs.FoldedKeys[tn] {
+		if ob := vc.check("folded-key", x.Pos(), "", sx("folded", k), []string{"C08"}); ob != nil {
+			ob.Detail = tn
+		}
+	}
+}
 
 func (vc *VC) next(x *ssa.Next) {
 	r, ok := x.Iter.(*ssa.Range)
@@ -831,7 +884,11 @@ func (vc *VC) next(x *ssa.Next) {
 	vc.val[x] = "0"
 }
 
-func (vc *VC) mapRangeKeyFacts(x *ssa.Next, r *ssa.Range, k Term) {}
+func (vc *VC) mapRangeKeyFacts(x *ssa.Next, r *ssa.Range, k Term) {
+	if vc.e.cs.FoldedKeys[vc.e.typeName(r.X.Type())] {
+		vc.gfact(sx("folded", k))
+	}
+}
 
 func (vc *VC) slice(x *ssa.Slice) {
 	sp := vc.safetyProps()
@@ -851,7 +908,7 @@ func (vc *VC) slice(x *ssa.Slice) {
 			vc.val[x] = a
 			return
 		}
-		vc.setVal(x, sx("substr", a, lo, hi))
+		vc.setVal(x, sx("ssub", a, lo, hi))
 		n := vc.val[x]
 		vc.gfact(Eq(sx("slen", n), Sub(hi, lo)))
 		vc.gfact(Imp(sx("nlfree", a), sx("nlfree", n)))
@@ -913,6 +970,31 @@ func (vc *VC) ret(x *ssa.Return) {
 	for i, r := range x.Results {
 		_ = i
 		ce.result = append(ce.result, cval{t: vc.v(r), typ: r.Type()})
+	}
+	for _, bc := range vc.con.BodyCalls {
+		var reaches []Term
+		for _, blk := range vc.fn.Blocks {
+			for _, ins := range blk.Instrs {
+				if c, ok := ins.(*ssa.Call); ok {
+					if g := c.Call.StaticCallee(); g != nil && (vc.e.fname(g) == bc.Fn || libName(g) == bc.Fn) {
+						if r, ok := vc.reach[blk.Index]; ok && vc.innermostLoop(blk.Index) < 0 {
+							reaches = append(reaches, r)
+						}
+					}
+				}
+			}
+		}
+		ce.err = nil
+		t := ce.eval(bc.Cond)
+		if ce.err != nil {
+			vc.unsupp("body_calls %q: %v", bc.Text, ce.err)
+			continue
+		}
+		pr := props
+		if len(bc.Props) > 0 {
+			pr = bc.Props
+		}
+		vc.check("body-calls", token.NoPos, bc.Text, Eq(Or(reaches...), t.t), pr)
 	}
 	for _, c := range vc.con.Ensures {
 		ce.err = nil
